@@ -663,10 +663,9 @@ def c01_8(R):
             ok_src = True
     ok_len = False
     if n1 is not None and n1 == n2:
-        d = b.unique_def(n1)
-        if isinstance(d, Term) and call_matches(d, ("Ord::min",)):
-            ls = [trace(b, a) for a in d.args]
-            if all(t.kind == "call" and (t.root[1].resolved or "").endswith("::len") for t in ls):
+        sel = select_minmax(b, Place({"l": n1, "p": []}))  # `a.min(b)` or `if a <= b { a } else { b }`
+        if sel is not None and sel[0] == "min":
+            if all(t.kind == "call" and (t.root[1].resolved or "").endswith("::len") for t in sel[1:]):
                 ok_len = True
     if ok_src and ok_len and dst is not None:
         R.ok("copy=payload[offset..][..len]", b.name, "dst[..len] <- payload[offset..][..len], len = min(dst.len(), left)")
